@@ -242,6 +242,7 @@ def clause_permissions(prog, rep):
     chm = A.ReachCache(prog, lambda c: c.name == "set_permissions")
     ITER = ("next", "into_iter", "iter")
     fed = False
+    main_fed = False
     named = None
     for pth in sorted(perm_fns):
         root = prog.fns[pth]
@@ -257,6 +258,8 @@ def clause_permissions(prog, rep):
                         names = og.call_names()
                         if "join" in names and (set(ITER) & names):
                             fed = True
+                        if "join" not in names and not (set(ITER) & names) and any(pf.path == root.path for pf, _l in og.params):
+                            main_fed = True
                 if c.name == "join" and len(c.args) > 1 and "p" in c.args[1]:
                     og = A.origins(prog, g, c.args[1]["p"][0], scope=scope, max_frames=3)
                     names = og.call_names()
@@ -265,6 +268,9 @@ def clause_permissions(prog, rep):
     rep.check(named is True, "permissions", "sidecars/named-after-file", "sidecar paths are <file name><suffix> (Path::file_name)",
               "the sidecar paths are not built from the database's full file name (Path::file_name): for `x.db` the files `x.db-wal`, "
               "`x.db-shm`, `x.db-journal` are never restricted")
+    rep.check(main_fed, "permissions", "main-file/restricted", "the database path itself (not only its sidecars) is handed to the chmod helper on open",
+              "the function that re-applies permissions on open no longer restricts the main database file (only paths joined from the "
+              "sidecar suffixes): a database file that already existed with a lax mode (restored, copied) stays readable by others")
     rep.check(fed, "permissions", "sidecars/restricted", "the path joined from each sidecar suffix is handed to the chmod helper",
               "the sidecar paths are built but never restricted: WAL / journal files keep default permissions")
 
